@@ -23,10 +23,16 @@ K_NAME = 'K_parse (extracted Parser.ParseModel.parse_model_M vs fsic.parse_model
 RULE = ('exhaustive: every string up to length 4 (quick) / 5 (thorough) over the 30-symbol alphabet a Y i f s n 1 _ blank newline '
         '= + - * / . , ( ) [ ] { } < > ` # \' " e-acute, in shards of 900 strings (one case = one shard, so `evaluations` counts '
         'shards: multiply by 900), plus a random slice of the next length; plus C01-grammar scripts and their mutations (token '
-        'delete/duplicate/swap, bracket/brace/fence/quote insertion, control characters) as single-script cases, plus a fixed corpus. '
+        'delete/duplicate/swap, bracket/brace/fence/quote insertion, control characters) and physical-line mutations (blank / comment-only / '
+        'tab-indented / fence lines inserted, lines duplicated or deleted, trailing backslash / NUL / bracket glued to a line end, other line-break '
+        'characters) as single-script cases, plus a fixed corpus of boundary inputs (int() digit limit 4300/4301, lone brackets, NUL, non-ASCII, tabs). '
         'Non-trivial = a shard in which at least one string is accepted and at least two distinct error classes occur, or a single '
         'script that is accepted with >= 1 equation or raises; distinct by hash of the case.')
-TRUSTED = ['extraction of the parser model to OCaml (ExtrOcamlBasic + ExtrOcamlString only) and coq/Extract/Parser/driver.ml',
+TRUSTED = ["Python's regex engine (module re: term_re.finditer, equation_re.search, the three re.sub calls) is NOT formalised: it is modelled by the "
+           'hand-written structural lexer / matcher of Parser/Lex.v, Split.v (stmt_ok), ParseEq.v (sub_ws, sub_open, sub_close), validated only by the '
+           'differential check K (exhaustive over the 30-symbol alphabet up to the length bound + grammar/mutation scripts), see DESIGN.md Appendix B.1 / C',
+           'str.splitlines / str.strip / int() / str.format of CPython are modelled by hand (PyStr.v, ParseEq.py_int, Format.v) and validated the same way',
+           'extraction of the parser model to OCaml (ExtrOcamlBasic + ExtrOcamlString only) and coq/Extract/Parser/driver.ml',
            'harness/parser_common.py (encoders, driver runner)', "CPython's compile() as the syntax-check oracle (tabulated per generated statement)"]
 ASSUMPTIONS = ['input strings are Latin-1 (code points 0..255)',
                "CPython's int() digit limit is the default sys.get_int_max_str_digits() = 4300 (ParseEq.int_max_str_digits; boundary cases 4300/4301 in the corpus)",
